@@ -103,7 +103,7 @@ def mk_pre(e, pieces=None):
     return t, ref, n
 
 
-_QUICK = (1, 3, 4, 6)
+_QUICK = (3, 6)
 
 
 def _ob(name, bounds, per_string=True):
